@@ -218,3 +218,6 @@ func (k *kit) RequestUpgradeDeclined(client string) reqResult {
 		r.Header.Set("Upgrade", "h2c")
 	})
 }
+
+// Advance moves the virtual clock (sequential harnesses).
+func (k *kit) Advance(d time.Duration) { k.s.AdvanceQuiet(d) }
